@@ -169,62 +169,111 @@ def sync_table_rule(prog, res):
 
 
 def param_sync_rule(prog, res):
-    f = prog.fn(UPD[1], nparams=2)
-    R = Renderer(f)
+    """updateParameters regenerates POINT:FRAMES / USED and the label-like lists with one entry per
+    point / channel.  Read over updateParameters and the non-public members / file-local helpers it
+    delegates to; locals are identified by their role (what is handed to set()), not by their name."""
+    f0 = prog.fn(UPD[1], nparams=2)
+    fam = [f0]
+    for u in prog.reachable_from([f0]):
+        h = prog.funcs.get(u)
+        if h is not None and h is not f0 and h.body is not None and h.qname not in UPD and \
+                ((h.cls == f0.cls and h.rec.get('access') in ('private', 'protected')) or h.rec.get('internal') or '(anonymous namespace)' in h.qname):
+            fam.append(h)
     sets = {}
-    for n in f.calls():
-        if n['callee']['qname'].endswith('Parameter::set') and f.call_obj(n) is not None:
-            o = R.render(f.call_obj(n))
-            m = re.match(r'^this\._parameters\.group\("(\w+)"\)\.parameter\("(\w+)"\)$', o)
-            if m:
-                sets.setdefault((m.group(1), m.group(2)), []).append((n, R.render(n['args'][0])))
-    want = {('POINT', 'FRAMES'): 'this._data._frames.size',
-            ('POINT', 'USED'): 'local:nPoints', ('POINT', 'LABELS'): 'local:labels', ('POINT', 'DESCRIPTIONS'): 'local:descriptions', ('POINT', 'UNITS'): 'local:units',
-            ('ANALOG', 'USED'): 'local:nAnalogs', ('ANALOG', 'LABELS'): 'local:labels', ('ANALOG', 'DESCRIPTIONS'): 'local:descriptions',
-            ('ANALOG', 'SCALE'): 'local:scales', ('ANALOG', 'OFFSET'): 'local:offset', ('ANALOG', 'UNITS'): 'local:units'}
+    unresolved = []
+    for f in fam:
+        R = Renderer(f)
+        for n in f.calls():
+            if n['callee']['qname'].endswith('Parameter::set') and f.call_obj(n) is not None:
+                o = R.render(f.call_obj(n))
+                m = re.match(r'^this\._parameters\.group\("(\w+)"\)\.parameter\("(\w+)"\)$', o)
+                if m:
+                    sets.setdefault((m.group(1), m.group(2)), []).append((n, R.render(n['args'][0]), f))
+                else:
+                    unresolved.append(o)
+    want = [('POINT', 'FRAMES'), ('POINT', 'USED'), ('POINT', 'LABELS'), ('POINT', 'DESCRIPTIONS'), ('POINT', 'UNITS'),
+            ('ANALOG', 'USED'), ('ANALOG', 'LABELS'), ('ANALOG', 'DESCRIPTIONS'), ('ANALOG', 'SCALE'), ('ANALOG', 'OFFSET'), ('ANALOG', 'UNITS')]
     for key in want:
         inst = '%s:%s regenerated' % key
-        if key not in sets:
-            res.viol('param-sync', inst, f.loc(), 'updateParameters never stores %s:%s' % key, function=f.sig, expr=inst)
+        if key in sets:
+            res.ok('param-sync', inst, sets[key][0][2].loc(sets[key][0][0]['id']), 'set(%s)' % sets[key][0][1], function=f0.sig, expr=inst, nontrivial=False)
+        elif unresolved:
+            res.undecided('param-sync', inst, f0.loc(), 'no store to %s:%s found by name; the updater stores to parameters the rule cannot identify (%s) [shape not read by the rule]' %
+                          (key[0], key[1], unresolved[0][:80]), function=f0.sig, expr=inst)
         else:
-            res.ok('param-sync', inst, f.loc(sets[key][0][0]['id']), 'set(%s)' % sets[key][0][1], function=f.sig, expr=inst, nontrivial=False)
-    # counts: FRAMES <- number of stored frames; USED <- points of frame 0 when data exists else declared labels + new names
-    ok = ('POINT', 'FRAMES') in sets and sets[('POINT', 'FRAMES')][0][1] in ('this._data._frames.size', 'local:nFrames')
-    if ok:
-        res.ok('param-sync', 'POINT:FRAMES <- number of stored frames', f.loc(), function=f.sig, expr='frames-src')
-    else:
-        res.viol('param-sync', 'POINT:FRAMES <- number of stored frames', f.loc(), 'FRAMES is set from %s' % (sets.get(('POINT', 'FRAMES'), [(None, None)])[0][1]), function=f.sig, expr='frames-src')
-    # the count locals: assignments under data().nbFrames() > 0
-    assigns = {}
-    for n in f.all_nodes({'BinaryOperator'}):
-        if n['op'] == '=':
-            l = R.render(n['ch'][0])
-            if l in ('local:nPoints', 'local:nAnalogs'):
-                assigns.setdefault(l, []).append(R.render(n['ch'][1]))
+            res.viol('param-sync', inst, f0.loc(), 'updateParameters never stores %s:%s' % key, function=f0.sig, expr=inst)
+    # counts: FRAMES <- number of stored frames
+    fr = sets.get(('POINT', 'FRAMES'))
+    if fr:
+        src = fr[0][1]
+        fsrc = fr[0][2]
+        ok = src == 'this._data._frames.size'
+        if not ok and src.startswith('local:'):
+            Rf = Renderer(fsrc)
+            defs = [Rf.render(d['init']) for n in fsrc.all_nodes({'DeclStmt'}) for d in n['decls'] if 'local:' + d['name'] == src and 'init' in d]
+            ok = defs == ['this._data._frames.size']
+        if ok:
+            res.ok('param-sync', 'POINT:FRAMES <- number of stored frames', fsrc.loc(fr[0][0]['id']), function=f0.sig, expr='frames-src')
+        elif src.startswith('local:') or src.startswith('this.'):
+            res.viol('param-sync', 'POINT:FRAMES <- number of stored frames', fsrc.loc(fr[0][0]['id']), 'FRAMES is set from %s' % src, function=f0.sig, expr='frames-src')
+        else:
+            res.undecided('param-sync', 'POINT:FRAMES <- number of stored frames', fsrc.loc(fr[0][0]['id']), 'FRAMES is set from %s [shape not read by the rule]' % src, function=f0.sig, expr='frames-src')
+    # the count locals (whatever they are called): assignments under data().nbFrames() > 0
+    roles = {}
+    for key, role in ((('POINT', 'USED'), 'points'), (('ANALOG', 'USED'), 'analogs')):
+        if key in sets and sets[key][0][1].startswith('local:'):
+            roles[role] = (sets[key][0][1], sets[key][0][2])
     wantp = {'this._data.frame(0)._points._points.size', '(%s.valuesAsString().size + arg0.size)' % P('POINT', 'LABELS')}
     wanta = {'this._data.frame(0)._analogs.subframe(0)._channels.size', '0', '(unsigned long)0', '(%s.valuesAsString().size + arg1.size)' % P('ANALOG', 'LABELS')}
-    if set(assigns.get('local:nPoints', [])) == wantp:
-        res.ok('param-sync', 'POINT:USED source', f.loc(), 'points of the first stored frame, else declared labels + new names', function=f.sig, expr='used-src')
-    else:
-        res.viol('param-sync', 'POINT:USED source', f.loc(), 'point count is computed from %s' % sorted(assigns.get('local:nPoints', [])), function=f.sig, expr='used-src')
-    if set(assigns.get('local:nAnalogs', [])) <= wanta and len(set(assigns.get('local:nAnalogs', []))) == 3:
-        res.ok('param-sync', 'ANALOG:USED source', f.loc(), 'channels of the first sub-frame of the first stored frame (0 without sub-frames), else declared labels + new names', function=f.sig, expr='aused-src')
-    else:
-        res.viol('param-sync', 'ANALOG:USED source', f.loc(), 'channel count is computed from %s' % sorted(assigns.get('local:nAnalogs', [])), function=f.sig, expr='aused-src')
+    for role, wantset, inst, okd in (('points', wantp, 'POINT:USED source', 'points of the first stored frame, else declared labels + new names'),
+                                     ('analogs', wanta, 'ANALOG:USED source', 'channels of the first sub-frame of the first stored frame (0 without sub-frames), else declared labels + new names')):
+        if role not in roles:
+            res.undecided('param-sync', inst, f0.loc(), 'the value stored to USED is not a local the rule can follow [shape not read by the rule]', function=f0.sig, expr=('used-src' if role == 'points' else 'aused-src'))
+            continue
+        lname, fh = roles[role]
+        Rh = Renderer(fh)
+        got = set()
+        for n in fh.all_nodes({'BinaryOperator'}):
+            if n['op'] == '=' and Rh.render(n['ch'][0]) == lname:
+                got.add(Rh.render(n['ch'][1]))
+        for n in fh.all_nodes({'DeclStmt'}):
+            for d in n['decls']:
+                if 'local:' + d['name'] == lname and 'init' in d:
+                    got.add(Rh.render(d['init']))
+        # helper parameters stand for what the caller passes
+        got = {re.sub(r'\barg(\d)\b', lambda m_: 'arg' + m_.group(1), g_) for g_ in got}
+        expr_ = 'used-src' if role == 'points' else 'aused-src'
+        good = (got == wantset) if role == 'points' else (got <= wantset and len(got) >= 3)
+        if fh is not f0:
+            # parameter positions differ inside a helper: compare modulo the argument index
+            norm = lambda x: re.sub(r'arg\d\.size', 'argN.size', x)
+            good = ({norm(x) for x in got} == {norm(x) for x in wantset}) if role == 'points' else ({norm(x) for x in got} <= {norm(x) for x in wantset} and len(got) >= 3)
+        if good:
+            res.ok('param-sync', inst, fh.loc(), okd, function=f0.sig, expr=expr_)
+        elif got and all(g_.startswith('this.') or g_.startswith('(') or g_ in ('0', '(unsigned long)0') for g_ in got):
+            res.viol('param-sync', inst, fh.loc(), '%s count is computed from %s' % (role[:-1], sorted(got)), function=f0.sig, expr=expr_)
+        else:
+            res.undecided('param-sync', inst, fh.loc(), '%s count is computed from %s [shape not read by the rule]' % (role[:-1], sorted(got)), function=f0.sig, expr=expr_)
     # one entry per point / channel: every list that is stored is filled by exactly one push_back per
     # iteration of a normal-form loop over [0, count) (labels...) or [current size, count) (scale/offset/units)
-    for n in f.calls():
-        if n['callee']['name'] == 'push_back' and f.call_obj(n) is not None:
-            o = R.render(f.call_obj(n))
-            if not o.startswith('local:'):
-                continue
-            fs = enclosing_fors(f, n['id'])
-            lf = normal_for(f, fs[0]) if fs else None
-            inst = 'list %s has one entry per element' % o[6:]
-            if lf is None or lf['op'] != '<' or R.render(lf['bound']) not in ('local:nPoints', 'local:nAnalogs'):
-                res.viol('param-sync', inst, f.loc(n['id']), 'entries are not appended once per point/channel index below the count', function=f.sig, expr=inst + '@%s' % o)
-            else:
-                res.ok('param-sync', inst, f.loc(n['id']), 'one push_back per index below %s' % R.render(lf['bound']), function=f.sig, expr='%s@%d' % (inst, n['id']), nontrivial=False)
+    counts = {v[0] for v in roles.values()}
+    for f in fam:
+        R = Renderer(f)
+        for n in f.calls():
+            if n['callee']['name'] == 'push_back' and f.call_obj(n) is not None:
+                o = R.render(f.call_obj(n))
+                if not o.startswith('local:'):
+                    continue
+                fs = enclosing_fors(f, n['id'])
+                lf = normal_for(f, fs[0]) if fs else None
+                inst = 'list %s has one entry per element' % o[6:]
+                if lf is not None and lf['op'] == '<' and R.render(lf['bound']) in counts:
+                    res.ok('param-sync', inst, f.loc(n['id']), 'one push_back per index below %s' % R.render(lf['bound']), function=f0.sig, expr='%s@%d' % (inst, n['id']), nontrivial=False)
+                elif lf is not None and lf['op'] == '<' and counts and re.match(r'^\(?local:\w+ [-+] 1\)?$', R.render(lf['bound'])):
+                    res.viol('param-sync', inst, f.loc(n['id']), 'entries are appended for indices below %s, not below the count' % R.render(lf['bound']), function=f0.sig, expr=inst + '@%s' % o)
+                else:
+                    res.undecided('param-sync', inst, f.loc(n['id']), 'entries are not appended once per index below the count in a loop the rule reads (bound %s) [shape not read by the rule]' %
+                                  (R.render(lf['bound']) if lf else 'none'), function=f0.sig, expr=inst + '@%s' % o)
 
 
 def who_may_mutate_rule(prog, res):
